@@ -99,7 +99,7 @@ impl Lower {
         let it = self.fresh("it");
         let mut len = self.src_len(&ch.source);
         let rev = ch.adapters.iter().any(|a| matches!(a, Adapter::Rev));
-        for a in &ch.adapters { if let Adapter::Zip(s2) = a { let l2 = self.src_len(s2); len = quote!({ let __a = #len; let __b = #l2; if __a <= __b { __a } else { __b } }); } }
+        for a in &ch.adapters { if let Adapter::Zip(s2) = a { let l2 = self.src_len(s2); len = quote!(__o_min_len(#len, #l2)); } }
         let n = self.fresh("n");
         let idx: TokenStream = if rev { quote!(#n - 1 - #k) } else { quote!(#k) };
         let is_mut = matches!(ch.source, Source::IterMut(_));
